@@ -510,6 +510,20 @@ async def one_case(r: core.Run, deps, rng_seed: int, idx: int):
 
         client, tracer = make_client(deps, variant, handler)
         before_vars = snap(deps, variables)
+        # the surrounding application's logging configuration is not an input of the request: every third case runs with DEBUG enabled on every logger
+        import logging
+        debug_logging = idx % 3 == 1
+        root_logger = logging.getLogger()
+        saved_level, saved_disable = root_logger.level, logging.root.manager.disable
+        if debug_logging:
+            logging.disable(logging.NOTSET)
+            root_logger.setLevel(logging.DEBUG)
+            if not root_logger.handlers:
+                root_logger.addHandler(logging.NullHandler())
+            for lg in list(logging.root.manager.loggerDict.values()):
+                if isinstance(lg, logging.Logger) and lg.name.split(".")[0] not in ("asyncio",):
+                    lg.disabled = False
+            feats.add("env.debug_logging")
         try:
             if variant.startswith("async"):
                 resp = await client.execute(query, opname, variables, **kwargs)
@@ -520,6 +534,9 @@ async def one_case(r: core.Run, deps, rng_seed: int, idx: int):
             outcomes[variant] = ("ok", resp.status_code, resp.json())
         except BaseException as e:  # noqa: BLE001
             outcomes[variant] = ("exc", type(e).__name__, str(e)[:200])
+        finally:
+            root_logger.setLevel(saved_level)
+            logging.disable(saved_disable)
         r.evaluations += 1
         r.count("client." + variant)
         case = {"kind": "single", "seed": rng_seed, "idx": idx, "variant": variant}
